@@ -191,7 +191,7 @@ func c05Shapes(c *chk.Ctx, rng interface{ Intn(int) int }) []*spec.Spec {
 func c05(args []string) {
 	c := chk.New("C05", "exploration", args)
 	c.Build(false)
-	c.Rule("generated non-streaming graphs (C04 generator incl. processes without out-ports, slow leaves) plus directed shapes for the driver logic (independent leaves, out-port-less process beside sink-terminated branches, RunTo on an out-port-less target, issue-#81 diamond with more tasks than buffer slots); oracle = the subject's own snapshot at the instant Run returns (listing, live children, monotonic stamp) vs. trace and reference, plus structural hang classification. distinct_nontrivial = distinct (graph shape, configuration, interleaving signature) of returned runs with >= 2 tasks")
+	c.Rule("generated non-streaming graphs (C04 generator incl. processes without out-ports, slow leaves) plus directed shapes for the driver logic (independent leaves, out-port-less process beside sink-terminated branches, RunTo on an out-port-less target, issue-#81 diamond with more tasks than buffer slots), plus close storms: command-free fan-ins of 2-8 one-file sources into one in-port, built and run 1500-3000 times inside one child process so that the upstreams close their connections at the same moment thousands of times (Run must return each time, every item must pass); oracle = the subject's own snapshot at the instant Run returns (listing, live children, monotonic stamp) vs. trace and reference, plus structural hang classification. distinct_nontrivial = distinct (graph shape, configuration, interleaving signature) of returned runs with >= 2 tasks")
 	c.Assume("SCIPIPE_BUFSIZE >= 1", "two processes without out-ports are refused by the library up front; that refusal (exit != 0, no command executed) is accepted", "hang verdicts only from the structural classifier (Go runtime deadlock report or all goroutines blocked), never from elapsed time")
 	rng := c.Rand("c05")
 	type job struct {
@@ -320,5 +320,109 @@ func c05(args []string) {
 		}
 		c.Sample(map[string]interface{}{"graph": gen.Describe(j.s), "cfg": j.cfg, "tasks": nt, "listing_entries_at_return": len(res.Ret.Listing), "run_mode": j.s.Run.Mode})
 	})
+	closeStorm(c, "files")
+	closeStorm(c, "params")
 	c.Finish()
+}
+
+// closeStorm: command-free fan-ins (k sources of one file each -> one recording in-port -> sink) built and run
+// many times inside one child process; the k upstreams close their connection to the in-port at (nearly)
+// the same moment in every iteration. Run must return every time and every item must have passed.
+func closeStorm(c *chk.Ctx, mode string) {
+	substream := mode == "substream"
+	rng := c.Rand("closestorm")
+	type job struct {
+		k, iters int
+		cfg      Cfg
+	}
+	var jobs []*job
+	for r := 0; r < c.Pick(16, 64); r++ {
+		j := &job{k: []int{2, 2, 3, 4, 6, 8}[r%6], iters: c.Pick(1500, 3000), cfg: Cfg{Buf: []int{1, 128}[r%2], Procs: []int{2, 4, 8, 16}[r%4]}}
+		if r%4 == 3 {
+			j.cfg.Sched = fmt.Sprintf("%d,300,50", rng.Intn(1<<30))
+			j.iters /= 3
+		} else if r%4 != 0 {
+			j.cfg.NoHooks = true // the hooks' own mutex must not space the closings out
+		}
+		jobs = append(jobs, j)
+	}
+	run.Parallel(len(jobs), func(i int) {
+		j := jobs[i]
+		root := c.CaseDir()
+		defer c.Drop(root)
+		s := &spec.Spec{Name: fmt.Sprintf("storm%d", j.k), MaxTasks: 4, Sources: map[string]string{}, LogFile: "/dev/null"}
+		if mode == "params" {
+			// k one-value parameter sources close their connection to one parameter in-port of a ParamCombinator
+			for u := 0; u < j.k; u++ {
+				n := fmt.Sprintf("ps%d", u)
+				s.Procs = append(s.Procs, &spec.Proc{Name: n, Kind: spec.KParamSource, Values: []string{fmt.Sprintf("v%d", u)}})
+				s.Conns = append(s.Conns, &spec.Conn{From: n + ".out", To: "PC.a", Param: true})
+			}
+			s.Procs = append(s.Procs, &spec.Proc{Name: "psb", Kind: spec.KParamSource, Values: []string{"x", "y"}}, &spec.Proc{Name: "PC", Kind: spec.KParamComb, Ports: []string{"a", "b"}})
+			s.Conns = append(s.Conns, &spec.Conn{From: "psb.out", To: "PC.b", Param: true})
+		}
+		for u := 0; u < j.k && mode != "params"; u++ {
+			f := fmt.Sprintf("f%d.txt", u)
+			s.Sources[f] = f
+			s.Procs = append(s.Procs, &spec.Proc{Name: fmt.Sprintf("src%d", u), Kind: spec.KFileSource, Files: []string{f}})
+			to := "REC.in"
+			if substream {
+				to = "SS.in"
+			}
+			s.Conns = append(s.Conns, &spec.Conn{From: fmt.Sprintf("src%d.out", u), To: to})
+		}
+		per := j.k // recorded items per iteration
+		if substream {
+			// the fan-in feeds a StreamToSubStream; the recorder behind it sees one sub-stream per iteration
+			s.Procs = append(s.Procs, &spec.Proc{Name: "SS", Kind: spec.KSubStream})
+			s.Conns = append(s.Conns, &spec.Conn{From: "SS.substream", To: "REC.in"})
+			per = 1
+		}
+		if mode != "params" {
+			s.Procs = append(s.Procs, &spec.Proc{Name: "REC", Kind: spec.KRecorder})
+		} else {
+			per = 0
+		}
+		s.Run.Repeat = j.iters
+		res := execSpec(c, root, s, j.cfg, nil, false, 0)
+		desc := map[string]interface{}{"spec": s, "cfg": j.cfg, "upstreams": j.k, "iterations": j.iters}
+		if res.Hang != "" {
+			if strings.HasPrefix(res.Hang, "deadlock") {
+				done := 0
+				for _, e := range res.Trace {
+					if e.Ev == "rec" {
+						done++
+					}
+				}
+				c.Violation("hang-"+res.Hang, fmt.Sprintf("fan-in of %d sources closing one in-port at the same moment: Run did not return in iteration %d of %d: %s\n%s", j.k, done/imax(per, 1)+1, j.iters, res.Hang, clip(res.HangInfo, 800)), desc)
+			} else {
+				c.Inconclusive("close storm: " + res.Hang)
+			}
+			return
+		}
+		if res.Exit != 0 || !res.Returned {
+			c.Violation("exit-nonzero", fmt.Sprintf("fan-in of %d sources, %d iterations: exit %d: %s", j.k, j.iters, res.Exit, tail(res.Output(), 500)), desc)
+			return
+		}
+		got := 0
+		for _, e := range res.Trace {
+			if e.Ev == "rec" {
+				got++
+			}
+		}
+		if got != per*j.iters {
+			c.Violation("item-lost", fmt.Sprintf("fan-in of %d sources, %d iterations: %d items passed, expected %d", j.k, j.iters, got, per*j.iters), desc)
+			return
+		}
+		c.Count("close_storm_iterations", j.iters)
+		c.Count("close_storm_closings", j.iters*j.k)
+		c.Nontrivial(fmt.Sprintf("storm|%s|%d|%v", mode, j.k, j.cfg))
+	})
+}
+
+func imax(a, b int) int {
+	if a > b {
+		return a
+	}
+	return b
 }
